@@ -38,7 +38,7 @@ for d in sorted(os.listdir(os.path.join(VERIF, 'seeded'))):
     rows.append((d, files, summary, demo.group(1) if demo else '?', concrete, unshown, dis,
                  '; '.join('%s/%s' % c for c in caught)))
     print(rows[-1], flush=True)
-with open(os.path.join(VERIF, 'seeded', 'REPORT.md'), 'w') as f:
+with open(os.environ.get('SEEDREPORT_OUT') or os.path.join(VERIF, 'seeded', 'REPORT.md'), 'w') as f:
     f.write('| change | file | what it does | demo rc | concrete failing inputs | only-unshown | model≠code | caught by (stream/class) |\n')
     f.write('|---|---|---|---|---|---|---|---|\n')
     for r in rows:
